@@ -321,6 +321,86 @@ def check_hints(ctx, prog):
     ctx.require(found >= 3, "expected >= 3 hash-size hints, found %d" % found)
 
 
+def check_gotoinit(ctx, prog):
+    """a scalar local must not be read on a path that reaches the read through a `goto` and has not passed an
+    initialisation or assignment of it (a jump over an initialising declaration leaves the variable indeterminate; a jump
+    to a shared error/exit label before the first assignment does the same)"""
+    n = nf = 0
+    for fn in prog.all_functions():
+        if not any(b.goto for b in fn.blocks.values()):
+            continue
+        nf += 1
+        decl = {}
+        for b, i, e in fn.elements():
+            if e.get("k") == "decl":
+                for v in e.get("vars", []):
+                    if "id" in v and fn.type(v.get("t")).get("k") in ("int", "uint", "ptr", "enum", "float"):
+                        decl[v["id"]] = (b.id, i, v["n"], v.get("init") is not None)
+        if not decl:
+            continue
+        defs = {vid: ([(b, i)] if init else []) for vid, (b, i, nm, init) in decl.items()}
+        uses = {vid: [] for vid in decl}
+        for b, i, e in fn.elements():
+            lhs = set()
+            for x in walk(e):
+                if x.get("k") == "asg" and x.get("op") == "=":
+                    l = strip(x["a"])
+                    if l.get("k") == "ref" and l.get("id") in decl:
+                        defs[l["id"]].append((b.id, i))
+                        lhs.add(id(l))
+                if x.get("k") == "un" and x.get("op") == "&":
+                    t = strip(x["e"])
+                    if isinstance(t, dict) and t.get("k") == "ref" and t.get("id") in decl:
+                        defs[t["id"]].append((b.id, i))
+                        lhs.add(id(t))
+            if e.get("k") != "decl":
+                for x in walk(e):
+                    if x.get("k") == "ref" and x.get("id") in decl and id(x) not in lhs:
+                        uses[x["id"]].append((b.id, i, x.get("l")))
+        for bid, blk in fn.blocks.items():
+            if blk.cond is not None:
+                for x in walk(blk.cond):
+                    if x.get("k") == "ref" and x.get("id") in decl:
+                        uses[x["id"]].append((bid, len(blk.elems), x.get("l")))
+        for vid, (db, di, nm, init) in decl.items():
+            if not uses[vid]:
+                continue
+            n += 1
+            dblocks = {}
+            for (b, i) in defs[vid]:
+                dblocks[b] = min(dblocks.get(b, 1 << 30), i)
+            bad = None
+            for (ub, ui, ul) in uses[vid]:
+                if ub in dblocks and dblocks[ub] < ui:
+                    continue
+                seen = set()
+                st = [(fn.entry, False)]
+                while st and bad is None:
+                    x, g = st.pop()
+                    if (x, g) in seen:
+                        continue
+                    seen.add((x, g))
+                    if x == ub and g:
+                        bad = ul
+                        break
+                    if x in dblocks:
+                        continue
+                    g2 = g or bool(fn.blocks[x].goto)
+                    st.extend((s_, g2) for s_ in fn.blocks[x].succs if s_ is not None)
+                if bad is not None:
+                    break
+            if bad is not None:
+                ctx.fail("R9.gotoinit", fn.name, nm, "`%s` is read after a goto that can be taken before it is initialised "
+                         "(%s): its value is indeterminate there" % (nm, "the jump skips its initialising declaration" if init
+                                                                       else "no assignment precedes the jump"),
+                         fn=fn, line=bad or fn.line, inst="%s:%s" % (fn.name, nm))
+    ctx.require(nf >= 20 and n >= 200, "R9.gotoinit: only %d functions with goto / %d locals examined" % (nf, n))
+    if not any(f.rule == "R9.gotoinit" for f in ctx.findings):
+        ctx.ok("R9.gotoinit", "all", "%d scalar locals in %d functions that use goto: none is read across a jump before being set" % (n, nf))
+    else:
+        ctx.instance("R9.gotoinit", "all")
+
+
 # functions too large for the path-sensitive release analysis within its state budget; they are not summarised and
 # not reported on.  A function joining this set ends the run as analysis-broken instead of passing unseen.
 BUDGET_SKIPS = {"extract_reqs", "igetput_varn", "intra_node_aggregation", "ncmpio_igetput_varm", "req_commit", "ncmpi_open",
@@ -341,6 +421,8 @@ def run(ctx):
     check_hints(ctx, prog)
     r5.run_r5(ctx, prog)
     ctx.min_instances("R5.queue", 30)
+    ctx.rule("R9.gotoinit", "no scalar local is read across a goto taken before its initialisation")
+    check_gotoinit(ctx, ctx.program(groups=["lib"]))
     from rules import r10type
     ctx.rule("R10.typerange", "hdr_get_nc_type accepts an external type code exactly when the format version allows it")
     r10type.check(ctx, ctx.need_fn(prog, "hdr_get_nc_type"), "R10.typerange", "ncmpio")
